@@ -38,12 +38,16 @@ def strategy_(draw):
     k = draw(st.integers(2, 4))
     spec = {'stage': stage, 'k': k,
             'orders': [list(draw(st.permutations(list(range(k))))) for _ in range(2)],
-            'hash_seeds': [draw(st.integers(1, 5))]}
+            'hash_seeds': [draw(st.integers(1, 5))],
+            'affinity': draw(st.sampled_from([None, [0], [0], [0, 1]]))}
     if stage in ('mapping', 'mapdirect'):
         m = copy.deepcopy(draw(gen.map_cases(max_cells=12, max_leaves=8, allow_flatten=(stage == 'mapping'), allow_drop=(stage == 'mapping'))))
         n = len(m['query']['cells'])
         m['cfg']['n_processors'] = k
         m['cfg']['chunk_size'] = draw(st.integers(1, max(1, math.ceil(n / k))))
+        if draw(st.booleans()):
+            # a requested chunk size above ceil(n / workers): the documented chunking is then decided by the worker count
+            m['cfg']['chunk_size'] = draw(st.integers(math.ceil(n / k), n + 3))
         m['cfg']['tmp_dir'] = True
         spec['map'] = m
     else:
@@ -132,9 +136,13 @@ def prepare(d, spec):
     return a
 
 
-def run_in_subprocess(a, hash_seed):
+def run_in_subprocess(a, hash_seed, affinity=None):
     env = dict(os.environ)
     env['PYTHONHASHSEED'] = str(hash_seed)
+    if affinity is not None:
+        env['VERIF_CPU_AFFINITY'] = ','.join(str(c) for c in affinity)
+    else:
+        env.pop('VERIF_CPU_AFFINITY', None)
     env['PYTHONPATH'] = f'{REPO_DIR}/src:{VERIF_DIR}'
     env.pop('CELL_TYPE_MAPPER_VERIF_TRACE', None)
     r = subprocess.run([sys.executable, '-m', 'pbt.stage_runner', json.dumps(a)], env=env, cwd=str(VERIF_DIR),
@@ -193,6 +201,14 @@ def check(spec):
             diff = differs(base, got)
             if diff:
                 raise Violation('result_depends_on_hash_seed', {'stage': stage, 'hash_seed': hs, 'differing': diff[:6]})
+        # ---- another run of the same configuration on a machine with fewer usable cores (one / two CPUs)
+        if spec.get('affinity'):
+            got = run_in_subprocess(dict(a, work=str(d / 'w_aff'), tag='aff'), spec['hash_seeds'][0] if spec['hash_seeds'] else 1,
+                                    affinity=spec['affinity'])
+            classes.append('run_with_restricted_cpu_affinity')
+            diff = differs(base, got)
+            if diff:
+                raise Violation('result_depends_on_usable_cpus', {'stage': stage, 'affinity': spec['affinity'], 'differing': diff[:6]})
         # ---- worker counts
         if stage in ('mapping', 'mapdirect'):
             cfg = spec['map']['cfg']
